@@ -316,12 +316,24 @@ def engine_rewrite(item, sig, body, env, log, sig_line, body_line, qual):
             args = ', '.join((f if is_config_type(ftype[f]) else '&mut *%s' % f) for f in info['fields'])
         else:
             args = ', '.join(('self.%s' % f if is_config_type(ftype[f]) else '&mut self.%s' % f) for f in info['fields'])
+        if info.get('grow'):
+            args += ', g'
         rl.append(RL.R('R2.call:' + hname, r'self \. %s \( ' % hname, 'Self::%s(%s, ' % (hname, args),
                        'method call on self while a guard is live -> associated fn over the fields it uses'))
     if me is not None:
         params = ', '.join(('%s: %s' % (f, ftype[f]) if is_config_type(ftype[f]) else '%s: &mut %s' % (f, ftype[f])) for f in me['fields'])
+        grow = item.get('grow')
+        if grow:
+            params += ', g: &mut Ghost<Set<String>>'
         rl.append(RL.R('R2.receiver', r'\( & self\b(?! \.) ,?', '(' + params + ', ', 'receiver split into the fields the body uses: ' + ', '.join(me['fields'])))
         for f in state:
+            if grow and f == grow['store']:
+                acq = '({ acquire(&mut *%s, g); %%s *%s })' % (f, f)
+                rl.append(RL.R('R1g.acq.write:' + f, r'self \. %s \. (?:write|lock|borrow_mut) \( \)' % f, acq % '&mut', 'store acquisition: monotonicity obligation, arbitrary interference, &mut re-borrow'))
+                rl.append(RL.R('R1g.acq.read:' + f, r'self \. %s \. (?:read|borrow) \( \)' % f, acq % '&', 'shared store acquisition: monotonicity obligation, arbitrary interference, & re-borrow'))
+                rl.append(RL.R('R1g.dashmap:' + f, r'self \. %s \. (get_mut|get|contains_key|remove|insert|len|iter|clear) \(' % f, (acq % '&mut') + r'.\1(',
+                               'every DashMap operation is a store critical section of its own: monotonicity obligation, arbitrary interference'))
+                continue
             if item.get('interference') and f != 'stats':
                 rl.append(RL.R('R1i.acq.write:' + f, r'self \. %s \. (?:write|lock|borrow_mut) \( \)' % f, '(havoc_mut(&mut *%s))' % f, 'interference projection: exclusive acquisition -> arbitrary change, then &mut re-borrow'))
                 rl.append(RL.R('R1i.acq.read:' + f, r'self \. %s \. (?:read|borrow) \( \)' % f, '(havoc_shared(&mut *%s))' % f, 'interference projection: shared acquisition -> arbitrary change, then & re-borrow'))
@@ -333,8 +345,23 @@ def engine_rewrite(item, sig, body, env, log, sig_line, body_line, qual):
             rl.append(RL.R('R2.field:' + f, r'self \. %s\b' % f, f, 'self.<field> -> split parameter'))
     elif item.get('interference'):
         rl.append(RL.SELF_MUT)
+        grow = item.get('grow')
+        if grow:
+            # R1g: ghost parameter threading + monotone-store acquisitions (rely/guarantee argument for the concurrent sentence of C03)
+            rl.append(RL.R('R1g.ghost_param', r'\( &mut self\b(?! \.) ,?', '(&mut self, g: &mut Ghost<Set<String>>, ', 'ghost parameter: key set of the store at its last acquisition'))
+            for callee in grow['callees']:
+                rl.append(RL.R('R1g.ghost_arg:' + callee, r'self \. %s \( ' % callee, 'self.%s(g, ' % callee, 'ghost argument threaded to a callee that acquires the store'))
         for f in state:
             if f == 'stats':
+                continue
+            if grow and f == grow['store']:
+                acq = '({ acquire(&mut self.%s, g); %%s self.%s })' % (f, f)
+                rl.append(RL.R('R1g.acq.write:' + f, r'self \. %s \. (?:write|lock|borrow_mut) \( \)' % f, acq % '&mut',
+                               'store acquisition: OBLIGATION the key set recorded at the previous acquisition is still contained (the critical section in between removed nothing); then arbitrary interference; then &mut borrow'))
+                rl.append(RL.R('R1g.acq.read:' + f, r'self \. %s \. (?:read|borrow) \( \)' % f, acq % '&',
+                               'shared store acquisition: same obligation, arbitrary interference, & borrow'))
+                rl.append(RL.R('R1g.dashmap:' + f, r'self \. %s \. (get_mut|get|contains_key|remove|insert|len|iter|clear) \(' % f, (acq % '&mut') + r'.\1(',
+                               'every DashMap operation is a store critical section of its own: same obligation, arbitrary interference'))
                 continue
             rl.append(RL.R('R1i.acq.write:' + f, r'self \. %s \. (?:write|lock|borrow_mut) \( \)' % f, '(havoc_mut(&mut self.%s))' % f,
                            'interference projection: exclusive acquisition -> the guarded data may have changed arbitrarily, then &mut borrow'))
@@ -347,6 +374,9 @@ def engine_rewrite(item, sig, body, env, log, sig_line, body_line, qual):
         for f in state:
             rl.append(RL.R('R1.acq.write:' + f, r'self \. %s \. (?:write|lock|borrow_mut) \( \)' % f, '(&mut self.%s)' % f, 'exclusive lock acquisition -> &mut borrow'))
             rl.append(RL.R('R1.acq.read:' + f, r'self \. %s \. (?:read|borrow) \( \)' % f, '(&self.%s)' % f, 'shared lock acquisition -> & borrow'))
+    if item.get('grow'):
+        rl.append(RL.R('R1g.reborrow', r'& mut (\( \{ acquire \( [^;]*; & mut [^}]*\} \))', r'\1', '&mut <store guard temporary> -> the &mut borrow itself'))
+        rl.append(RL.R('R1g.reborrow_shared', r'&(?! mut) (\( \{ acquire \( [^;]*; &(?! mut) [^}]*\} \))', r'\1', '&<store guard temporary> -> the & borrow itself'))
     rl.append(RL.REBORROW)
     rl.append(RL.REBORROW_SH)
     rl += RL.guard_local_rules(guards)
@@ -373,8 +403,8 @@ def compute_split(unit, load, env):
             continue
         bodies[it['name']] = stripped[f['body_open']:f['body_close'] + 1]
         st = [f_ for f_, _t in env['structs'][it['engine']]]
-        used = [f_ for f_ in st if re.search(r'\bself\s*\.\s*%s\b' % f_, bodies[it['name']])]
-        split[(it['engine'], it['name'])] = dict(fields=used)
+        used = [f_ for f_ in st if f_ in it.get('split_always', ()) or re.search(r'\bself\s*\.\s*%s\b' % f_, bodies[it['name']])]
+        split[(it['engine'], it['name'])] = dict(fields=used, grow=bool(it.get('grow')))
     changed = True
     while changed:
         changed = False
